@@ -40,7 +40,7 @@ OBLIGATIONS = {"mode:plain": 20, "mode:zip-x.csv": 20, "mode:zip-x.zip": 20,
                "col:float": 50, "col:int": 50, "col:text": 50, "fmt:%0.5f": 20,
                "fmt:%0.2f": 10, "fmt:%0.10e": 10, "fmt:None": 10, "comments": 100,
                "comment:colon": 20, "comment:hash": 10, "comment:dashes": 3,
-               "sysinfo:on": 20, "sysinfo:off": 20, "archive:multi-member": 20}
+               "sysinfo:on": 20, "sysinfo:off": 20, "archive:multi-member": 20, "stale-sibling": 5}
 RESERVED = {"nrow", "ncol", "time_generated", "author", "source_file", "work_dir",
             "python_version", "pandas_version", "numpy_version", "python_inc",
             "python_lib", "comment", "python_environment"}
@@ -187,6 +187,12 @@ def run_case(ctx, case):
         if mode == "plain":
             fname = wd / f"{stem}.csv"
             kw = {"compress": False}
+            if ctx.evaluations % 2 == 0:
+                # an older compressed file with the same stem sits in the folder
+                ctx.tag("stale-sibling")
+                old = pd.DataFrame({"old": [1, 2, 3, 4, 5, 6, 7]})
+                csv.write_csv(old, wd / f"{stem}.csv", {"which": "old"}, src,
+                              compress=True, write_sys_info=False)
         elif mode in ("zip-x.csv", "zip-dotted"):
             fname = wd / f"{stem}.csv"
             kw = {"compress": True}
@@ -224,6 +230,10 @@ def run_case(ctx, case):
                           {"exc": repr(e)})
                 return
         produced = sorted(p.name for p in wd.iterdir() if p.name != "script.py")
+        if mode == "plain" and "which" not in comments:
+            comments_absent = ["which"]
+        else:
+            comments_absent = []
         members = {}
         if archive is not None:
             archive.close()
@@ -303,6 +313,9 @@ def run_case(ctx, case):
             ctx.check("rt.comment", com.get(k) == v, f"roundtrip|comment|{cls}", case,
                       lambda: {"key": k, "written": v, "read": com.get(k),
                                "all": {a: b for a, b in list(com.items())[:12]}})
+        for k in comments_absent:
+            ctx.check("rt.no-foreign-comment", k not in com, "roundtrip|foreign-comment",
+                      case, lambda: {"key": k, "value": com.get(k)})
         okn = str(com.get("nrow")) == str(len(df)) and \
             str(com.get("ncol")) == str(df.shape[1])
         ctx.check("rt.nrow-ncol", okn, "roundtrip|nrow-ncol", case,
